@@ -903,11 +903,11 @@ pub const COMMENT_KINDS: usize = 5;
 fn comment_text(kind: usize, id: usize) -> (String, bool) {
     // (text, needs_line_break_after)
     match kind {
-        0 => (format!("--c{}", id), true),
-        1 => (format!("--[[c{}]]", id), false),
-        2 => (format!("--[=[c{}]=]", id), false),
-        3 => (format!("--[[c{}\nd]]", id), false),
-        _ => (format!("-- c{} \n", id), true),
+        0 => (format!("--c{}x", id), true),
+        1 => (format!("--[[c{}x]]", id), false),
+        2 => (format!("--[=[c{}x]=]", id), false),
+        3 => (format!("--[[c{}x\nd]]", id), false),
+        _ => (format!("-- c{}x \n", id), true),
     }
 }
 
@@ -1082,6 +1082,11 @@ pub fn f_seq(n: usize, all_encl: bool) -> Vec<Case> {
                 let mut dial = Dial::Core;
                 let mut ok = true;
                 for (i, (s, d, sep)) in var.iter().enumerate() {
+                    // a separator without `;` before a statement starting with `(` does not separate anything in
+                    // Lua (the two lines are ONE statement); that shape belongs to F-TRIVIA, not to this family
+                    if i > 0 && s.starts_with('(') && !SEQ_SEPS[var[i - 1].2].contains(';') {
+                        ok = false;
+                    }
                     dial = dial.max(*d);
                     text.push_str(s);
                     let sp = SEQ_SEPS[*sep];
@@ -1094,6 +1099,9 @@ pub fn f_seq(n: usize, all_encl: bool) -> Vec<Case> {
                         // next statement follows on the same line: fine for Lua
                     }
                     let _ = &mut ok;
+                }
+                if !ok {
+                    continue;
                 }
                 text.push_str(post);
                 let mut cs = case("F-SEQ", dial, text);
